@@ -14,7 +14,8 @@ func init() {
 // every search: each acknowledged, not-removed document is returned; no id that was never
 // added; the id set equals that of one in-memory hybrid index holding the same live documents
 func vStoreSearchCheck(s *PersistentHybridIndex, live []vStoreDoc, everAdded map[uint32]bool, ref HybridSearchIndex, label string) {
-	r, e := s.NewSearch().WithVector([]float32{2}).WithK(10).Execute()
+	// the query sits exactly on document 12 (distance 0 when it is live)
+	r, e := s.NewSearch().WithVector([]float32{5}).WithK(10).Execute()
 	vAssert(e == nil, label+"-search-ok")
 	ids := vIDsOfHybrid(r)
 	for _, id := range ids {
@@ -28,11 +29,21 @@ func vStoreSearchCheck(s *PersistentHybridIndex, live []vStoreDoc, everAdded map
 	for _, d := range live {
 		vAssert(vContains(ids, d.id), label+"-acknowledged-document-visible")
 	}
-	rr, e2 := ref.NewSearch().WithVector([]float32{2}).WithK(10).Execute()
+	rr, e2 := ref.NewSearch().WithVector([]float32{5}).WithK(10).Execute()
 	vAssert(e2 == nil, "reference-search-ok")
 	vAssert(len(rr) == len(ids), label+"-same-id-set-as-in-memory-index")
 	for _, x := range rr {
 		vAssert(vContains(ids, x.ID), label+"-same-id-set-as-in-memory-index")
+	}
+	// the same with a distance threshold (l2_squared 10 around 5: only the document at 5 is inside, those at 1, 9, 13 are not)
+	rt2, e4 := s.NewSearch().WithVector([]float32{5}).WithK(10).WithThreshold(10).Execute()
+	vAssert(e4 == nil, label+"-search-ok")
+	rr2, e5 := ref.NewSearch().WithVector([]float32{5}).WithK(10).WithThreshold(10).Execute()
+	vAssert(e5 == nil, "reference-search-ok")
+	ids2 := vIDsOfHybrid(rt2)
+	vAssert(len(rr2) == len(ids2), label+"-same-id-set-as-in-memory-index-under-threshold")
+	for _, x := range rr2 {
+		vAssert(vContains(ids2, x.ID), label+"-same-id-set-as-in-memory-index-under-threshold")
 	}
 	if s.config.TextIndexTemplate != nil {
 		rt, e3 := s.NewSearch().WithText("fox").WithK(10).Execute()
@@ -232,4 +243,50 @@ func H_C08_after_flush() {
 	}
 	vAssert(s.Close() == nil, "close-ok")
 	vCover("ran")
+}
+
+func init() { vHarnesses["H_C08_compact"] = H_C08_compact }
+
+// compaction of 2..3 single-document segments written in one session: each segment searched right after
+// its flush or never loaded, caches evicted or not, threshold = number of segments; the compaction is
+// served by the background worker; every document stays visible afterwards
+func H_C08_compact() {
+	vStoreTemplates = []int{3, 0}[vChoose("templates", 2)]
+	dir := vTempDir()
+	cfg := vFreshStoreCfg(dir, false)
+	nb := 2 + vChoose("segments", 2)
+	cfg.CompactionThreshold = nb
+	s, err := OpenPersistentHybridIndex(cfg)
+	vAssert(err == nil, "open-ok")
+	flat, _ := NewFlatIndex(1, L2Squared)
+	ref := NewHybridSearchIndex(flat, nil, nil)
+	var live []vStoreDoc
+	ever := map[uint32]bool{}
+	searchBetween := vChoose("search_between", 2) == 1
+	for b := 0; b < nb; b++ {
+		d := vStoreDocs[b]
+		vAssert(s.AddWithID(d.id, []float32{d.vec}, d.text, map[string]interface{}{"c": d.c}) == nil, "add-ok")
+		vAssert(ref.AddWithID(d.id, []float32{d.vec}, "", nil) == nil, "reference-add-ok")
+		live = append(live, d)
+		ever[d.id] = true
+		vAssert(s.Flush() == nil, "flush-ok")
+		if searchBetween {
+			vStoreSearchCheck(s, live, ever, ref, "between")
+		}
+	}
+	if searchBetween {
+		vTag("searched-between")
+	}
+	if vChoose("evict", 2) == 1 {
+		s.segmentManager.EvictAllCaches()
+		vTag("evicted")
+	}
+	s.TriggerCompaction()
+	vYield()
+	if s.segmentManager.Count() == 1 {
+		vCover("compacted")
+	}
+	vStoreSearchCheck(s, live, ever, ref, "after-compaction")
+	vStoreSearchCheck(s, live, ever, ref, "after-compaction-again")
+	vAssert(s.Close() == nil, "close-ok")
 }
